@@ -9,7 +9,10 @@ Monitors (DESIGN.md section 3, C13):
      plus a set-based relational / exactly-once check over unique lid/rid ids that does not use the
      model's composition code;
      plus, on key-sorted inputs, `-s` output == default output as multisets (per-identity equality).
-  g  grid: all 2^5 combinations of {np, ul, ur, s, ignore-empty} x (L, R) pairs.
+  g  grid: all 2^5 combinations of {np, ul, ur, s, ignore-empty} x (L, R) pairs (one pair multi-batch).
+  b  batch-boundary / bucket-transition runs: sorted sides with multiplicities {0,1,2,many} per key and side,
+     runs ending on / next to / across each reader-batch boundary; -s, default mode and -u.
+  n  -s on unsorted input: only the order-independent obligations (see assumptions).
   d  doc-replay of the join examples in reference-verbs.md and questions-about-joins.md.
 """
 import hashlib
@@ -154,27 +157,56 @@ SHARED = ["a", "b", "c", "v", "w"]
 LEFT_ONLY = ["p", "q"]
 RIGHT_ONLY = ["s", "t"]
 VALS = ["1", "2", "x", "", "0.50", "7", "hello", "0xff", "-3", "yy"]
+PLAIN_LFMTS = ("nidx", "xtab", "pprint", "markdown")
 
 
-def _gen_side(rng, n, jnames, other_side_jnames, pool, idname, idprefix, own, homog, miss_p, empty_p, wide):
-    """Records for one side.  Non-join names never equal an output join name (see assumptions)."""
+def _nonjoin_names(rng, names_pool, extra_names, jnames, width, idprefix):
+    """Non-join, non-id field names of one record (or of a homogeneous side's layout).
+    width["target"] = exact number of such names (with >= 1 name shared between the sides), so that the composed
+    paired record lands on a chosen width around the 12-field key-index threshold."""
+    t = width.get("target")
+    if t is not None:
+        nn = rng.sample(SHARED, max(1, min(len(SHARED), t, rng.randint(1, 4)))) if t > 0 else []
+        nn += [f"{idprefix}f{i}" for i in range(t - len(nn))]
+        rng.shuffle(nn)
+    else:
+        nn = rng.sample(names_pool, rng.randint(0, min(4, len(names_pool))))
+    # sometimes a field named like the OTHER side's join field, or like an OUTPUT join field
+    # (a plain non-join field on this side)
+    for on, p in extra_names:
+        if on not in jnames and on not in nn and rng.random() < p:
+            nn.append(on)
+    return nn
+
+
+def _gen_side(rng, n, jnames, extra_names, pool, idname, idprefix, own, homog, miss_p, empty_p, width,
+              vals=None, keyseq=None):
+    """Records for one side.  extra_names = [(name, probability)] of non-join names beyond the pools;
+    width = {"pad": k extra fields | 0, "target": exact number of non-join names | None};
+    keyseq = optional list of {join name: value} dicts (one per record, possibly partial) instead of random keys."""
     names_pool = SHARED + own
+    vals = vals or VALS
+    pad = width.get("pad", 0)
     recs = []
+    if keyseq is not None:
+        n = len(keyseq)
     # homogeneous sides fix a layout once
     layout = None
     if homog:
-        nn = rng.sample(names_pool, rng.randint(0, min(4, len(names_pool))))
+        nn = _nonjoin_names(rng, names_pool, [(on, min(1.0, p * 4)) for on, p in extra_names], jnames, width, idprefix)
         layout = list(jnames) + nn + [idname]
-        if wide:
-            layout += [f"{idprefix}w{i}" for i in range(12)]
+        layout += [f"{idprefix}w{i}" for i in range(pad)]
         rng.shuffle(layout)
     for i in range(n):
         fields = []
         keyvals = {}
-        for jn in jnames:
-            if not homog and rng.random() < miss_p:
-                continue
-            keyvals[jn] = "" if rng.random() < empty_p else rng.choice(pool)
+        if keyseq is not None:
+            keyvals = dict(keyseq[i])
+        else:
+            for jn in jnames:
+                if not homog and rng.random() < miss_p:
+                    continue
+                keyvals[jn] = "" if rng.random() < empty_p else rng.choice(pool)
         if homog:
             for nm in layout:
                 if nm in keyvals:
@@ -184,16 +216,12 @@ def _gen_side(rng, n, jnames, other_side_jnames, pool, idname, idprefix, own, ho
                 elif nm == idname:
                     fields.append((nm, f"{idprefix}{i+1}"))
                 else:
-                    fields.append((nm, rng.choice(VALS)))
+                    fields.append((nm, rng.choice(vals)))
         else:
-            nn = rng.sample(names_pool, rng.randint(0, min(4, len(names_pool))))
-            # sometimes a field named like the OTHER side's join field (a plain non-join field here)
-            for on in other_side_jnames:
-                if on not in jnames and rng.random() < 0.12:
-                    nn.append(on)
-            items = [(nm, rng.choice(VALS)) for nm in nn] + [(idname, f"{idprefix}{i+1}")]
-            if wide and rng.random() < 0.5:
-                items += [(f"{idprefix}w{k}", str(rng.randint(0, 9))) for k in range(12)]
+            nn = _nonjoin_names(rng, names_pool, extra_names, jnames, width, idprefix)
+            items = [(nm, rng.choice(vals)) for nm in nn] + [(idname, f"{idprefix}{i+1}")]
+            if pad and rng.random() < 0.5:
+                items += [(f"{idprefix}w{k}", str(rng.randint(0, 9))) for k in range(pad)]
             items += list(keyvals.items())
             rng.shuffle(items)
             # join fields are usually first, as in real data, but not always
@@ -247,7 +275,55 @@ def _render(recs, fmt):
                 prev = hdr
             lines.append(",".join(v for _, v in r))
         return "\n".join(lines) + "\n" if lines else ""
+    if kind == "nidx":
+        return "".join(" ".join(v for _, v in r) + "\n" for r in recs)
+    if kind == "xtab":
+        # one "name value" line per field, records separated by a blank line; aligned or not
+        blocks = []
+        for r in recs:
+            w = max(len(k) for k, _ in r) if fmt.get("align") else 0
+            blocks.append("".join(f"{k.ljust(w)} {v}\n" for k, v in r))
+        return "\n".join(blocks)
+    if kind == "pprint":
+        # like CSV-lite with runs of spaces; schema change = blank line + new header
+        groups = []
+        for r in recs:
+            hdr = [k for k, _ in r]
+            if not groups or groups[-1][0] != hdr:
+                groups.append((hdr, []))
+            groups[-1][1].append([v for _, v in r])
+        blocks = []
+        for hdr, rows in groups:
+            if fmt.get("align"):
+                ws = [max(len(x[i]) for x in [hdr] + rows) for i in range(len(hdr))]
+                blocks.append("".join(" ".join(x[i].ljust(ws[i]) for i in range(len(hdr))).rstrip(" ") + "\n"
+                                      for x in [hdr] + rows))
+            else:
+                blocks.append("".join(" ".join(x) + "\n" for x in [hdr] + rows))
+        return "\n".join(blocks)
+    if kind == "markdown":
+        if not recs:
+            return ""
+        hdr = [k for k, _ in recs[0]]
+        lines = ["| " + " | ".join(hdr) + " |", "| " + " | ".join("---" for _ in hdr) + " |"]
+        for r in recs:
+            lines.append("| " + " | ".join(v for _, v in r) + " |")
+        return "\n".join(lines) + "\n"
     raise ValueError(kind)
+
+
+def _plain_ok(recs, kind):
+    """nidx / xtab / pprint / markdown carry neither an empty record nor empty or space-bearing texts;
+    "-" is PPRINT's spelling of an empty value."""
+    for r in recs:
+        if not r:
+            return False
+        for k, v in r:
+            if k == "" or v == "" or " " in k + v or "|" in k + v:
+                return False
+            if kind == "pprint" and (v == "-" or k == "-"):
+                return False
+    return True
 
 
 def _csvlite_ok(recs):
@@ -297,7 +373,8 @@ def build_case(rng, forced=None):
     miss_p = rng.choice([0, 0.15, 0.15, 0.3])
     empty_p = rng.choice([0, 0.10, 0.10, 0.3])
 
-    lfmt_name = rng.choice(["inherit"] * 6 + ["dkvp", "json", "csv", "csvlite", "tsv", "dkvp-seps", "csv-implicit"])
+    lfmt_name = rng.choice(["inherit"] * 8 + ["dkvp", "json", "csv", "csvlite", "tsv", "dkvp-seps", "csv-implicit",
+                                              "csv-noimplicit", "nidx", "xtab", "pprint", "markdown"])
     main_fmt = rng.choice(["dkvp"] * 5 + ["json", "json", "csvlite"])
     if comma:
         main_fmt = "json"
@@ -306,10 +383,32 @@ def build_case(rng, forced=None):
         lfmt_name = forced["lfmt"]
     if "main_fmt" in forced:
         main_fmt = forced["main_fmt"]
-    l_homog = lfmt_name in ("csv", "tsv", "csv-implicit")
-    wide = rng.random() < 0.15
-    L = _gen_side(rng, nl, l_eff, r_eff, pool, "lid", "l", LEFT_ONLY, l_homog, miss_p, empty_p, wide)
-    Rr = _gen_side(rng, nr, r_eff, l_eff, pool, "rid", "r", RIGHT_ONLY, False, miss_p, empty_p, wide)
+    if lfmt_name == "csv-noimplicit" and main_fmt == "csvlite":
+        main_fmt = "dkvp"         # the main-level headerless flag used there would also strip the right stream's header
+    l_homog = lfmt_name in ("csv", "tsv", "csv-implicit", "csv-noimplicit", "nidx", "markdown")
+    vals = VALS
+    if lfmt_name in PLAIN_LFMTS:
+        # formats that cannot spell an empty text (and "-" is PPRINT's empty): keep both sides' texts plain
+        empty_p = 0
+        vals = [v for v in VALS if v]
+        pool = [x for x in pool if x not in ("", "-")] or ["1"]
+    # widths: `pad` extra fields per side (a side alone below / at / above the 12-field key-index threshold),
+    # or exact widths so that the COMPOSED paired record has 10..16 fields before collisions
+    lwidth, rwidth = {"pad": 0, "target": None}, {"pad": 0, "target": None}
+    wsel = rng.random()
+    if wsel < 0.15:
+        lwidth["pad"] = rwidth["pad"] = rng.choice([5, 7, 8, 9, 10, 12])
+    elif wsel < 0.30 or forced.get("cross12"):
+        total = rng.choice([10, 11, 12, 12, 13, 13, 14, 15, 16])
+        room = max(2, total - nkeys - 2)          # minus join fields and the two id fields
+        ln_ = rng.randint(1, room - 1)
+        lwidth["target"], rwidth["target"] = ln_, room - ln_
+    # a non-join field NAMED like an output join field (only possible on a side whose join field is renamed)
+    collide = nkeys and mode != "j" and (forced.get("collide") or rng.random() < 0.2)
+    lextra = [(x, 0.12) for x in r_eff] + ([(x, 0.35) for x in jn] if collide else [])
+    rextra = [(x, 0.12) for x in l_eff] + ([(x, 0.35) for x in jn] if collide else [])
+    L = _gen_side(rng, nl, l_eff, lextra, pool, "lid", "l", LEFT_ONLY, l_homog, miss_p, empty_p, lwidth, vals)
+    Rr = _gen_side(rng, nr, r_eff, rextra, pool, "rid", "r", RIGHT_ONLY, False, miss_p, empty_p, rwidth, vals)
 
     o = {"j": jn, "l": ln, "r": rn, "lp": None, "rp": None, "lk": None,
          "np": rng.random() < 0.25, "ul": rng.random() < 0.6, "ur": rng.random() < 0.6,
@@ -319,7 +418,7 @@ def build_case(rng, forced=None):
     if rng.random() < 0.3:
         o["rp"] = rng.choice(["R_", "right:", "y."])
     if rng.random() < 0.25:
-        cand = SHARED + LEFT_ONLY + ["nosuch"] + list(l_eff)
+        cand = SHARED + LEFT_ONLY + ["nosuch"] + list(l_eff) + [x for x in jn if x not in l_eff]
         lk = rng.sample(cand, rng.randint(0, 4))
         if rng.random() < 0.8:
             lk.append("lid")
@@ -332,9 +431,9 @@ def build_case(rng, forced=None):
 
     # implicit header: the left file has positional names 1..n; the -l names become positions
     limplicit = None
-    if lfmt_name == "csv-implicit":
+    if lfmt_name in ("csv-implicit", "nidx"):
         if not L:
-            lfmt_name = "csv"
+            lfmt_name = "csv" if lfmt_name == "csv-implicit" else lfmt_name
         else:
             names = [k for k, _ in L[0]]
             ren = {nm: str(i + 1) for i, nm in enumerate(names)}
@@ -349,11 +448,107 @@ def build_case(rng, forced=None):
     if o["s"]:
         L = _sort_by_key(L, l_eff)
         Rr = _sort_by_key(Rr, r_eff)
-    batch = rng.choice([None, None, 1, 2, 500])
+    batch = rng.choice([None, None, 1, 2, 3, 7, 500])
     right_via = rng.choice(["stdin", "file", "file", "two-files"])
     return {"L": L, "R": Rr, "o": o, "lfmt": lfmt_name, "main_fmt": main_fmt, "batch": batch,
             "right_via": right_via, "limplicit": limplicit, "keyclass": "comma" if comma else "plain",
-            "opt_order_seed": rng.randint(0, 10**9)}
+            "opt_order_seed": rng.randint(0, 10**9), "su_mixed": rng.random() < 0.2}
+
+
+def build_runs_case(rng, forced=None):
+    """Directed at reader-batch boundaries and bucket transitions.  Both sides are built key by key in lexical key
+    order, each key with a multiplicity from {0, 1, 2, many} on either side (so every cross-product shape and every
+    one-sided bucket occurs), and whenever a side is within reach of its next batch boundary (every B records:
+    500 by default, or --records-per-batch B) the run is sized to end exactly on / one before / one after the
+    boundary or to straddle it.  -s runs use the sides as built (sorted); default-mode runs also shuffle them."""
+    forced = forced or {}
+    B = forced.get("B") or rng.choice([500, 500, 500, 500, 1, 2, 3, 5, 8])
+    nkeys = rng.choice([1, 1, 1, 2])
+    mode = rng.choice(["j", "j", "lj", "rj", "lrj"])
+    jn = ["k", "k2"][:nkeys]
+    ln = ["lk", "lk2"][:nkeys] if mode in ("lj", "lrj") else None
+    rn = ["rk", "rk2"][:nkeys] if mode in ("rj", "lrj") else None
+    l_eff = ln if ln is not None else jn
+    r_eff = rn if rn is not None else jn
+
+    def target():
+        if B >= 100:
+            return rng.choice([1, 1, 2, 2, 3]) * B + rng.choice([-2, -1, 0, 0, 1, 2, 4])
+        return rng.randint(2, 30) * B + rng.choice([-1, 0, 0, 1])
+    tl, tr = target(), target()
+    small = rng.random()
+    if small < 0.15:
+        tl = rng.randint(0, 12)
+    elif small < 0.30:
+        tr = rng.randint(0, 12)
+    sfx = {}
+
+    def make_key(i):
+        if i not in sfx:
+            sfx[i] = rng.choice(["", "", "", "x", ".0", "\u00e9", "~"])
+        if nkeys == 1:
+            return (f"{i:05d}" + sfx[i],)
+        return (f"{i // 3:05d}", "abc"[i % 3] + sfx[i])
+
+    def mult(pos, tgt):
+        if pos >= tgt or rng.random() > min(1.0, 3.0 * max(tgt, 1) / max(tl, tr, 1)):
+            return 0
+        m = rng.choice([0, 0, 1, 1, 1, 2, 2, 3, 5, 9])
+        nb = (pos // B + 1) * B
+        if B > 1 and pos < nb <= pos + 9:
+            d = nb - pos
+            m = rng.choice([d, d, d - 1, d + 1, d + rng.randint(2, 5), m])
+        return max(0, m)
+    keysL, keysR = [], []
+    if rng.random() < 0.3:
+        e = ("",) * nkeys                      # the empty key sorts first
+        keysL += [e] * rng.choice([0, 1, 2]); keysR += [e] * rng.choice([0, 1, 2])
+    i = 0
+    while (len(keysL) < tl or len(keysR) < tr) and i < 40000:
+        key = make_key(i)
+        i += 1
+        keysL += [key] * mult(len(keysL), tl)
+        keysR += [key] * mult(len(keysR), tr)
+
+    lfmt_name = rng.choice(["inherit"] * 5 + ["dkvp", "json", "csv", "tsv"])
+    main_fmt = rng.choice(["dkvp"] * 4 + ["json"])
+    l_homog = lfmt_name in ("csv", "tsv")
+
+    def keyseq(keys, names, keyless_ok):
+        out = [dict(zip(names, k)) for k in keys]
+        if keyless_ok and out:
+            for _ in range(rng.choice([0, 0, 1, 3, 8])):
+                out.insert(rng.randint(0, len(out)), {} if nkeys == 1 or rng.random() < 0.5 else {names[0]: "00000"})
+        return out
+    width = {"pad": 0, "target": None}
+    collide = mode != "j" and rng.random() < 0.15
+    lextra = [(x, 0.1) for x in jn] if collide else []
+    L = _gen_side(rng, 0, l_eff, lextra, ["0"], "lid", "l", LEFT_ONLY, l_homog, 0, 0, width, VALS,
+                  keyseq=keyseq(keysL, l_eff, not l_homog))
+    Rr = _gen_side(rng, 0, r_eff, lextra, ["0"], "rid", "r", RIGHT_ONLY, False, 0, 0, width, VALS,
+                   keyseq=keyseq(keysR, r_eff, True))
+    o = {"j": jn, "l": ln, "r": rn, "lp": None, "rp": None, "lk": None,
+         "np": rng.random() < 0.2, "ul": rng.random() < 0.65, "ur": rng.random() < 0.65,
+         "ie": rng.random() < 0.3, "s": rng.random() < 0.65, "u": False}
+    if rng.random() < 0.2:
+        o["lp"] = rng.choice(["L_", "left:"])
+    if rng.random() < 0.2:
+        o["rp"] = rng.choice(["R_", "right:"])
+    for k2, v in forced.items():
+        if k2 in o:
+            o[k2] = v
+    if o["np"] and not o["ul"] and not o["ur"]:
+        o["ul"] = True
+    if not o["s"]:
+        o["u"] = rng.random() < 0.4
+        if rng.random() < 0.5:
+            rng.shuffle(L)
+        if rng.random() < 0.5:
+            rng.shuffle(Rr)
+    return {"L": L, "R": Rr, "o": o, "lfmt": lfmt_name, "main_fmt": main_fmt, "batch": None if B == 500 else B,
+            "right_via": rng.choice(["stdin", "file", "file", "two-files"]), "limplicit": None, "keyclass": "plain",
+            "opt_order_seed": rng.randint(0, 10**9), "su_mixed": rng.random() < 0.2,
+            "shape": f"B{B}"}
 
 
 def _argv_and_files(c, sorted_mode):
@@ -401,10 +596,29 @@ def _argv_and_files(c, sorted_mode):
     elif lfmt_name == "csv-implicit":
         lfmt = {"kind": "csv", "implicit": True}
         left_flags = ["-i", "csv", "--implicit-csv-header"]
+    elif lfmt_name == "csv-noimplicit":
+        # join --help: a headerless main option is inherited by the left file unless overridden after `join`
+        lfmt = {"kind": "csv"}
+        main += ["--implicit-csv-header"]
+        left_flags = ["-i", "csv", "--no-implicit-csv-header"]
+    elif lfmt_name == "nidx":
+        lfmt = {"kind": "nidx"}
+        left_flags = rng.choice([["-i", "nidx"], ["--inidx"]])
+    elif lfmt_name == "xtab":
+        lfmt = {"kind": "xtab", "align": rng.random() < 0.5}
+        left_flags = rng.choice([["-i", "xtab"], ["--ixtab"]])
+    elif lfmt_name == "pprint":
+        lfmt = {"kind": "pprint", "align": rng.random() < 0.5}
+        left_flags = rng.choice([["-i", "pprint"], ["--ipprint"]])
+    elif lfmt_name == "markdown":
+        lfmt = {"kind": "markdown"}
+        left_flags = rng.choice([["-i", "markdown"], ["--imd"], ["--imarkdown"]])
     else:
         raise ValueError(lfmt_name)
     if lfmt["kind"] == "csvlite" and not _csvlite_ok(L):
         return None, None, None, "csvlite cannot carry this left file"
+    if lfmt["kind"] in PLAIN_LFMTS and not _plain_ok(L, lfmt["kind"]):
+        return None, None, None, lfmt["kind"] + " cannot carry this left file"
     if lfmt["kind"] in ("csv", "tsv"):
         # a one-column file with an empty cell is a blank line (skipped by the reader)
         if any(len(r) == 1 and r[0][1] == "" for r in L):
@@ -434,7 +648,13 @@ def _argv_and_files(c, sorted_mode):
         if o[flag]:
             parts.append([name])
     if sorted_mode:
-        parts.append([rng.choice(["-s", "--sorted-input"])])
+        sflag = rng.choice(["-s", "--sorted-input"])
+        if c.get("su_mixed"):
+            # both mode flags: the docs do not say which wins; on key-sorted inputs either reading
+            # must give the same multiset, and only that is judged
+            parts.append(rng.choice([["-u", sflag], [sflag, "-u"]]))
+        else:
+            parts.append([sflag])
     elif o["u"]:
         parts.append(["-u"])
     if left_flags:
@@ -585,6 +805,71 @@ def _comma_collision(c, mo):
     return False
 
 
+def _join_values_and_collisions(ident, c, mo):
+    """-> (jv, coll): jv = {output join-field name: the text this record's join field carries} for the join fields
+    the input record(s) of `ident` have; coll = those output names that ALSO are the output name of one of the
+    record's non-join fields.  The statement requires the join value under the output name; the docs give no rule
+    for the payload field of that name, so on `coll` only the join value is judged (model-free) and the rest of
+    the record is compared without those names."""
+    jv, other = {}, set()
+    if ident[0] in ("P", "L"):
+        lrec = _left_keep(c["L"][ident[1]], mo)
+        d = dict(lrec)
+        for i, n in enumerate(mo.l):
+            if n in d:
+                jv[mo.j[i]] = d[n]
+        other |= {(mo.lp or "") + n for n, _ in lrec if n not in mo.l}
+    if ident[0] in ("P", "R"):
+        rrec = c["R"][ident[-1]]
+        d = dict(rrec)
+        if ident[0] == "R":
+            for i, n in enumerate(mo.r):
+                if n in d:
+                    jv[mo.j[i]] = d[n]
+        other |= {(mo.rp or "") + n for n, _ in rrec if n not in mo.r}
+    return jv, other & set(jv)
+
+
+def _compare_records(res, c, mo, base, detail, idents, got, exp_by_ident, label):
+    """Per-identity composition against the model.  Returns False if a composition failure other than the
+    locally-judged join-value loss was reported (the caller then stops judging this run)."""
+    flags, mode, feat = base["flags"], base["mode"], base["feat"]
+    reported = set()
+    for i, g in zip(idents, got):
+        e = exp_by_ident.get(i)
+        if e is None:
+            add_violation(res, dict(base, kind="pairing", sub="ident-not-in-model"),
+                          f"record {i} emitted but not expected by the model", detail)
+            return False
+        jv, coll = _join_values_and_collisions(i, c, mo)
+        e2, g2 = e, g
+        if coll:
+            bump(res, "records_with_payload_named_like_output_join_field")
+            gd = dict(g)
+            lost = [n for n in sorted(coll) if gd.get(n) != jv[n]]
+            if lost and "jvo" not in reported:
+                reported.add("jvo")
+                add_violation(res, dict(base, kind="composition", sub="join-value-overwritten", which=i[0]),
+                              f"join {flags} ({mode}) {feat}: {'paired' if i[0]=='P' else 'unpaired'} record {i} does not carry its "
+                              f"join value(s) { {n: jv[n] for n in lost} } under the output join-field name: a non-join field whose "
+                              f"output name equals the -j name replaced it; got {g}",
+                              dict(detail, expected_join_values=jv, got_record=g))
+            e2 = [kv for kv in e if kv[0] not in coll]
+            g2 = [kv for kv in g if kv[0] not in coll]
+        if e2 != g2:
+            sub = _rec_diff(e2, g2)
+            if sub not in reported:
+                reported.add(sub)
+                add_violation(res, dict(base, kind="composition", sub=sub, which=i[0]),
+                              f"join {flags} ({mode}) {feat}: {'paired' if i[0]=='P' else 'unpaired'} record composed wrongly ({sub}): "
+                              f"expected {e2} got {g2}", dict(detail, expected_record=e, got_record=g))
+    return not (reported - {"jvo"})
+
+
+def _only_local_known(res):
+    return all(v["sig"].get("sub") == "join-value-overwritten" for v in res["viol"])
+
+
 def _check_run(res, c, sorted_mode, model_out, mo):
     """Check one run; a failure that is explained EXACTLY by the comma-joined-key defect (the output equals
     the model run with keys compared as comma-joined texts) is reported under that root cause only."""
@@ -604,7 +889,9 @@ def _check_run(res, c, sorted_mode, model_out, mo):
     return got
 
 
-def _check_run0(res, c, sorted_mode, model_out, mo):
+def _exec(res, c, sorted_mode, mode=None):
+    """Run one join; -> (records, base sig, replay detail, flags text) or None when the run yields nothing to compare
+    (skipped, inconclusive, refused option set, or a violation already reported)."""
     o = c["o"]
     argv, files, stdin, why = _argv_and_files(c, sorted_mode)
     if argv is None:
@@ -613,7 +900,7 @@ def _check_run0(res, c, sorted_mode, model_out, mo):
     r = R.mlr(argv, stdin=stdin, files=files)
     bump(res, "runs")
     flags, feat = _flags_str(o, sorted_mode), _feat_str(c)
-    mode = "s" if sorted_mode else "u"
+    mode = mode or ("s" if sorted_mode else "u")
     detail = {"argv": argv, "files": files, "stdin": stdin}
     base = {"mode": mode, "flags": flags, "feat": feat, "keyclass": c["keyclass"]}
     if r.verdict == "slow":
@@ -646,16 +933,32 @@ def _check_run0(res, c, sorted_mode, model_out, mo):
         add_violation(res, dict(base, kind="output-unparseable"), f"join output is not a flat JSON record list: {ex}",
                       dict(detail, got=r.out[:3000]))
         return None
+    return got, base, detail, flags
 
-    exp_recs = [rec for _, rec in model_out]
-    lidname = (o["lp"] or "") + (c["limplicit"]["lid"] if c["limplicit"] else "lid")
+
+def _id_maps(c):
+    o = c["o"]
+    lraw = c["limplicit"]["lid"] if c["limplicit"] else "lid"
+    lidname = (o["lp"] or "") + lraw
     ridname = (o["rp"] or "") + "rid"
-    lid_visible = o["lk"] is None or ("lid" in o["lk"] if not c["limplicit"] else c["limplicit"]["lid"] in o["lk"])
+    lid_visible = o["lk"] is None or lraw in o["lk"]
+    lpos = {dict(rec).get(lraw): i for i, rec in enumerate(c["L"])}
+    rpos = {dict(rec)["rid"]: i for i, rec in enumerate(c["R"])}
+    return lidname, ridname, lid_visible, lpos, rpos
+
+
+def _check_run0(res, c, sorted_mode, model_out, mo):
+    o = c["o"]
+    x = _exec(res, c, sorted_mode)
+    if x is None:
+        return None
+    got, base, detail, flags = x
+    mode, feat = base["mode"], base["feat"]
+    exp_recs = [rec for _, rec in model_out]
+    lidname, ridname, lid_visible, lpos, rpos = _id_maps(c)
     expected_detail = {"expected": exp_recs[:200], "got": got[:200]}
 
     if lid_visible:
-        lpos = {dict(rec).get(c["limplicit"]["lid"] if c["limplicit"] else "lid"): i for i, rec in enumerate(c["L"])}
-        rpos = {dict(rec)["rid"]: i for i, rec in enumerate(c["R"])}
         idents = [_ident_of(g, lidname, ridname, lpos, rpos) for g in got]
         if ("?",) in idents:
             # the id fields are not where the documented naming puts them: a composition failure
@@ -678,18 +981,8 @@ def _check_run0(res, c, sorted_mode, model_out, mo):
         bump(res, "relational_checks")
         # (2) per-identity composition against the model
         exp_by_ident = {i: rec for i, rec in model_out}
-        for i, g in zip(idents, got):
-            e = exp_by_ident.get(i)
-            if e is None:
-                add_violation(res, dict(base, kind="pairing", sub="ident-not-in-model"),
-                              f"record {i} emitted but not expected by the model", dict(detail, **expected_detail))
-                return got
-            if e != g:
-                sub = _rec_diff(e, g)
-                add_violation(res, dict(base, kind="composition", sub=sub, which=i[0]),
-                              f"join {flags} ({mode}) {feat}: {'paired' if i[0]=='P' else 'unpaired'} record composed wrongly ({sub}): "
-                              f"expected {e} got {g}", dict(detail, expected_record=e, got_record=g, **expected_detail))
-                return got
+        if not _compare_records(res, c, mo, base, dict(detail, **expected_detail), idents, got, exp_by_ident, "model"):
+            return got
         bump(res, "composition_checks", len(got))
         # (3) emission order (unsorted mode only)
         if not sorted_mode:
@@ -705,6 +998,15 @@ def _check_run0(res, c, sorted_mode, model_out, mo):
             bump(res, "sorted_multiset_checks")
     else:
         # identities not observable (--lk dropped lid): compare whole outputs
+        if any(_join_values_and_collisions(i, c, mo)[1] for i, _ in model_out):
+            # a payload field named like an output join field: those names are left out (see _join_values_and_collisions)
+            J = set(mo.j)
+            got_cmp = [[kv for kv in g if kv[0] not in J] for g in got]
+            exp_recs = [[kv for kv in e if kv[0] not in J] for e in exp_recs]
+            bump(res, "noids_compared_without_join_names")
+        else:
+            got_cmp = got
+        got, got_all = got_cmp, got
         if sorted_mode:
             ok = sorted(map(repr, got)) == sorted(map(repr, exp_recs))
         else:
@@ -713,8 +1015,9 @@ def _check_run0(res, c, sorted_mode, model_out, mo):
             add_violation(res, dict(base, kind="sequence" if not sorted_mode else "multiset", sub="no-ids"),
                           f"join {flags} ({mode}) {feat}: output differs from the nested-loop model",
                           dict(detail, **expected_detail))
-            return got
+            return got_all
         bump(res, "sequence_checks_noids")
+        return got_all
     return got
 
 
@@ -732,13 +1035,156 @@ def _nontrivial(c, mo):
     return both_dup and un_l and un_r
 
 
+def _mult_classes(c, mo):
+    """{(left multiplicity class, right multiplicity class)} over the keys of the case; classes 0, 1, 2, many."""
+    from collections import Counter
+    kl = Counter(k for k in (_key(r, mo.l, mo.ie) for r in c["L"]) if k is not None)
+    kr = Counter(k for k in (_key(r, mo.r, mo.ie) for r in c["R"]) if k is not None)
+    cls = lambda n: str(n) if n <= 2 else "many"    # noqa: E731
+    return {(cls(kl.get(k, 0)), cls(kr.get(k, 0))) for k in set(kl) | set(kr)}
+
+
+def _compose(ident, c, mo):
+    """The documented composition of one output identity, whatever the emission order / pairing completeness."""
+    if ident[0] == "P":
+        lrec = c["L"][ident[1]]
+        return _pair(_left_keep(lrec, mo), c["R"][ident[2]], _key(lrec, mo.l, mo.ie), mo)
+    if ident[0] == "L":
+        return _unpaired(_left_keep(c["L"][ident[1]], mo), mo.l, mo, mo.lp)
+    return _unpaired(c["R"][ident[1]], mo.r, mo, mo.rp)
+
+
+def _check_unsorted_s(res, c, mo):
+    """-s on input that is NOT sorted.  The usage promises only "else not all records will be paired"; judged here is
+    what holds whatever the order: termination and status; every paired record joins two records with equal keys and
+    is emitted once; a record is emitted as unpaired at most once, only under its flag, and not if it was also paired;
+    a record whose key occurs nowhere on the other side is emitted under --ul / --ur; with --ul --ur nothing vanishes;
+    the composition of whatever is emitted; and --np removes exactly the paired records of the same run."""
+    from collections import Counter
+    x = _exec(res, c, True, mode="s-unsorted")
+    if x is None:
+        return
+    got, base, detail, flags = x
+    detail = dict(detail, got=got[:200])
+    lidname, ridname, lid_visible, lpos, rpos = _id_maps(c)
+    idents = [_ident_of(g, lidname, ridname, lpos, rpos) for g in got]
+    if ("?",) in idents:
+        add_violation(res, dict(base, kind="composition", sub="id-field-not-found"),
+                      f"join {flags} (-s, unsorted input): output record {got[idents.index(('?',))]} carries neither "
+                      f"{lidname!r} nor {ridname!r} with a known id", detail)
+        return
+    L, Rr = c["L"], c["R"]
+    kl = [_key(r, mo.l, mo.ie) for r in L]
+    kr = [_key(r, mo.r, mo.ie) for r in Rr]
+    lkeys, rkeys = {k for k in kl if k is not None}, {k for k in kr if k is not None}
+    cnt = Counter(idents)
+    bad = []
+    for i, n in cnt.items():
+        if n > 1:
+            bad.append(("duplicate-" + {"P": "pair", "L": "left", "R": "right"}[i[0]], f"{i} emitted {n} times"))
+    pairs = [i for i in cnt if i[0] == "P"]
+    for (_, li, ri) in pairs:
+        if kl[li] is None or kl[li] != kr[ri]:
+            bad.append(("paired-unequal-keys", f"left #{li} {kl[li]} paired with right #{ri} {kr[ri]}"))
+    if mo.np and pairs:
+        bad.append(("np-emits-paired", f"{len(pairs)} paired records under --np"))
+    lp_, rp_ = {i[1] for i in pairs}, {i[2] for i in pairs}
+    for i in cnt:
+        if i[0] == "L":
+            if not mo.ul:
+                bad.append(("extra-unpaired-left", f"left #{i[1]} emitted as unpaired without --ul"))
+            elif i[1] in lp_:
+                bad.append(("left-paired-and-unpaired", f"left #{i[1]} emitted both in a pair and as unpaired"))
+        if i[0] == "R":
+            if not mo.ur:
+                bad.append(("extra-unpaired-right", f"right #{i[1]} emitted as unpaired without --ur"))
+            elif i[1] in rp_:
+                bad.append(("right-paired-and-unpaired", f"right #{i[1]} emitted both in a pair and as unpaired"))
+    if mo.ul:
+        for li in range(len(L)):
+            if (kl[li] is None or kl[li] not in rkeys) and not cnt.get(("L", li)):
+                bad.append(("missing-unpaired-left", f"left #{li} (key {kl[li]}) matches nothing on the right but is not emitted under --ul"))
+    if mo.ur:
+        for ri in range(len(Rr)):
+            if (kr[ri] is None or kr[ri] not in lkeys) and not cnt.get(("R", ri)):
+                bad.append(("missing-unpaired-right", f"right #{ri} (key {kr[ri]}) matches nothing on the left but is not emitted under --ur"))
+    if mo.ul and mo.ur and not mo.np:
+        for li in range(len(L)):
+            if li not in lp_ and not cnt.get(("L", li)):
+                bad.append(("lost-left", f"left #{li} appears nowhere under --ul --ur"))
+        for ri in range(len(Rr)):
+            if ri not in rp_ and not cnt.get(("R", ri)):
+                bad.append(("lost-right", f"right #{ri} appears nowhere under --ul --ur"))
+    seen = set()
+    for sub, msg in bad:
+        if sub not in seen:
+            seen.add(sub)
+            add_violation(res, dict(base, kind="accounting", sub=sub), f"join {flags} (-s, unsorted input): {msg}", detail)
+    if bad:
+        return
+    bump(res, "s_unsorted_accounting_checks")
+    bump(res, "s_unsorted_pairs_seen", len(pairs))
+    bump(res, "s_unsorted_pairs_possible", sum(1 for a in kl if a is not None for b in kr if a == b))
+    if not _compare_records(res, c, mo, base, detail, idents, got, {i: _compose(i, c, mo) for i in cnt}, "compose"):
+        return
+    bump(res, "s_unsorted_composition_checks", len(got))
+    if not mo.np and (mo.ul or mo.ur):
+        c2 = dict(c, o=dict(c["o"], np=True))
+        x2 = _exec(res, c2, True, mode="s-unsorted")
+        if x2 is not None:
+            got2 = x2[0]
+            rest = [g for g, i in zip(got, idents) if i[0] != "P"]
+            if sorted(map(repr, got2)) != sorted(map(repr, rest)):
+                add_violation(res, dict(base, kind="np-metamorphic"),
+                              f"join {flags} (-s, unsorted input): adding --np does not remove exactly the paired records",
+                              dict(x2[2], expected=rest[:200], got=got2[:200]))
+            else:
+                bump(res, "s_unsorted_np_checks")
+
+
+def uns_case(case):
+    rng = random.Random(case["seed"])
+    c = build_case(rng, {"s": False, "big": False, "lk": None})
+    if rng.random() < 0.5:
+        # nearly sorted: sorted sides with a few records displaced (half-consumed / re-opened buckets)
+        mo0 = _model_opts(c["o"])
+        for side, names in (("L", mo0.l), ("R", mo0.r)):
+            recs = _sort_by_key(c[side], names)
+            for _ in range(rng.choice([0, 1, 1, 2, 3])):
+                if len(recs) >= 2:
+                    recs.insert(rng.randrange(len(recs)), recs.pop(rng.randrange(len(recs))))
+            c[side] = recs
+    o = c["o"]
+    if o["np"] and not o["ul"] and not o["ur"]:
+        o["ur"] = True
+    mo = _model_opts(o)
+    res = case_result(_h("n", case["seed"]), nontrivial=_nontrivial(c, mo))
+    bump(res, "flags_s_unsorted:" + _flags_str(o, True))
+    _check_unsorted_s(res, c, mo)
+    return res
+
+
 def join_case(case):
     rng = random.Random(case["seed"])
-    c = build_case(rng, case.get("forced"))
+    if case.get("builder") == "runs":
+        c = build_runs_case(rng, case.get("forced"))
+    else:
+        c = build_case(rng, case.get("forced"))
     o = c["o"]
     mo = _model_opts(o)
-    res = case_result(_h("a", case["seed"]), nontrivial=_nontrivial(c, mo))
+    res = case_result(_h(case.get("builder", "a"), case["seed"]), nontrivial=_nontrivial(c, mo))
     model_out = join_model(c["L"], c["R"], mo)
+    for a, b in _mult_classes(c, mo):
+        bump(res, f"mult:{a}x{b}" + (":s" if o["s"] else ""))
+    if c.get("shape"):
+        bump(res, "runs_shape:" + c["shape"] + (":s" if o["s"] else ":u"))
+        bump(res, "runs_records", len(c["L"]) + len(c["R"]))
+    if len(c["L"]) > 500 or len(c["R"]) > 500:
+        bump(res, "multi_batch_cases" + (":s" if o["s"] else ":u"))
+    widths = {len(rec) for _, rec in model_out}
+    for w in (11, 12, 13):
+        if w in widths:
+            bump(res, f"output_width_{w}")
     bump(res, "flags:" + _flags_str(o, o["s"]))
     bump(res, "lfmt:" + c["lfmt"])
     bump(res, "main:" + c["main_fmt"])
@@ -754,7 +1200,7 @@ def join_case(case):
     got_u = _check_run(res, c, False, model_out, mo)
     if o["s"]:
         got_s = _check_run(res, c, True, model_out, mo)
-        if got_u is not None and got_s is not None and not res["viol"]:
+        if got_u is not None and got_s is not None and _only_local_known(res):
             if sorted(map(repr, got_u)) != sorted(map(repr, got_s)):
                 argv, files, stdin, _ = _argv_and_files(c, True)
                 add_violation(res, {"kind": "s-vs-u", "flags": _flags_str(o, True), "feat": _feat_str(c)},
@@ -806,11 +1252,17 @@ def doc_cases():
 def run(chk):
     only = getattr(chk, "only", None)
     q = chk.quick()
-    chk.rule = ("a: random (left file, right stream, option set) triples - |L|,|R| in 0..40, key pools of 1-6 texts "
+    chk.rule = ("a: random (left file, right stream, option set) triples - |L|,|R| in 0..40 (4 %: 400-1300), key pools of 1-6 texts "
                 "(incl. numerically-equal-but-textually-distinct keys), 0/1/2 join fields, missing/empty keys, colliding "
-                "non-join names, -j vs -l/-r/-j, --lp/--rp/--lk, --np/--ul/--ur/--ignore-empty, -s on key-sorted inputs, -u, "
-                "left-file formats, batch sizes, right stream on stdin/1 file/2 files; g: all 2^5 combinations of "
-                "{np,ul,ur,s,ignore-empty} per (L,R) pair; d: doc examples. "
+                "non-join names (also with the other side's join name and, when renaming, with the OUTPUT join name), sides padded "
+                "to 5-12 extra fields or sized so that the composed record has 10-16 fields, -j vs -l/-r/-j, --lp/--rp/--lk, "
+                "--np/--ul/--ur/--ignore-empty, -s on key-sorted inputs (also with -u next to it), -u, left-file formats "
+                "(dkvp, json, csv, tsv, csvlite, nidx, xtab, pprint, markdown, custom separators, implicit / no-implicit header), "
+                "batch sizes, right stream on stdin/1 file/2 files; g: all 2^5 combinations of {np,ul,ur,s,ignore-empty} per (L,R) pair, "
+                "one pair spanning several reader batches; b: key-sorted sides built key by key with multiplicities {0,1,2,many} on "
+                "each side and runs ending on / next to / across every reader-batch boundary (500 records, or --records-per-batch "
+                "1,2,3,5,8), run with -s, and shuffled or not in the default mode / -u; n: -s on input that is not sorted (random and "
+                "nearly-sorted), judged only on order-independent obligations; d: doc examples. "
                 "Non-trivial = some key has multiplicity >= 2 on BOTH sides and >= 1 record is unpaired on EACH side; "
                 "distinct = by generator seed of the case")
     if not only or "a" in only:
@@ -820,30 +1272,63 @@ def run(chk):
     if not only or "g" in only:
         npairs = 6 if q else 60
         cases = []
-        for p in range(npairs):
+        for p in range(npairs + 1):
+            # pair p == npairs: both sides span several 500-record reader batches
+            extra = {"big": True} if p == npairs else {"big": False}
+            if p % 3 == 1:
+                extra["cross12"] = True          # composed record lands on 10..16 fields
+            if p % 3 == 2:
+                extra["collide"] = True          # payload field named like an output join field (when renaming)
             for bits in range(32):
                 forced = {"np": bool(bits & 1), "ul": bool(bits & 2), "ur": bool(bits & 4),
                           "s": bool(bits & 8), "ie": bool(bits & 16)}
+                if p == npairs and q and forced["np"] and not forced["ul"] and not forced["ur"]:
+                    continue                     # refused option set; not worth a 1000-record file in the quick tier
+                forced.update(extra)
                 # same (L, R) generator seed for all 32 combinations of one pair
                 cases.append({"seed": f"{chk.seed}/g/{p}", "forced": forced, "gridbits": bits})
         # the key must differ per combination: wrap
-        chk.pmap(grid_case, cases, chunksize=8, label="g flag grid")
+        chk.pmap(grid_case, cases, chunksize=4, label="g flag grid")
+    if not only or "b" in only:
+        n = 36 if q else 400
+        chk.pmap(join_case, [{"seed": f"{chk.seed}/b/{i}", "builder": "runs"} for i in range(n)],
+                 chunksize=2, label="b batch-boundary runs")
+    if not only or "n" in only:
+        n = 150 if q else 2500
+        chk.pmap(uns_case, [{"seed": f"{chk.seed}/n/{i}"} for i in range(n)], chunksize=8, label="n -s on unsorted input")
     if not only or "d" in only:
         dc = doc_cases()
         chk.extra["doc_blocks"] = len(dc)
         chk.pmap(doc_case, dc, label="d doc-replay")
     obs = chk.stats
-    chk.extra["flag_combinations_reached"] = len([k for k in obs if k.startswith("flags:")])
+    def _refused(k):
+        fl = k[6:].split("+")
+        return "np" in fl and "ul" not in fl and "ur" not in fl
+    chk.extra["flag_combinations_reached"] = len([k for k in obs if k.startswith("flags:") and not _refused(k)])
+    chk.extra["flag_combinations_refused_np_only"] = len([k for k in obs if k.startswith("flags:") and _refused(k)])
+    chk.extra["multiplicity_shapes_reached"] = sorted(k[5:] for k in obs if k.startswith("mult:"))
+    chk.extra["s_unsorted_flag_combinations"] = len([k for k in obs if k.startswith("flags_s_unsorted:")])
     chk.extra["left_formats_reached"] = sorted(k[5:] for k in obs if k.startswith("lfmt:"))
     chk.assumptions = [
         "keys are compared as TEXT (statement: 'equal as text'); the generator includes numerically-equal spellings that must not pair",
-        "no non-join field on either side carries the name of an OUTPUT join field, and prefixes never create a collision "
-        "(the docs define the collision rule only between left and right non-join fields: right overwrites left in place)",
+        "a non-join field whose output name equals an OUTPUT join-field name (possible only when -l/-r rename): the docs define the "
+        "collision rule only between left and right non-join fields (right overwrites left in place); on such a record the check "
+        "requires the join value under the -j name (statement: 'the join fields under their output names'), says nothing about the "
+        "payload field of that name, and compares the remaining fields as usual; prefixes never create a collision",
+        "-s on unsorted input (monitor n): usage says only 'else not all records will be paired'; judged are termination, status, "
+        "pairs have equal keys and occur once, unpaired emission at most once / only under its flag / never for a record also paired, "
+        "records matching nothing are emitted under --ul/--ur, nothing vanishes under --ul --ur, composition of what is emitted, and "
+        "--np removing exactly the paired records; completeness of pairing is NOT judged there",
+        "-s together with -u: which one wins is not documented; such runs are made on key-sorted inputs only and judged as multisets",
+        "nidx/xtab/pprint/markdown left files: texts without spaces, never empty, '-' avoided for pprint (these formats cannot spell "
+        "them); --allow-ragged-csv-input for the left file is not exercised (not in join's usage; the flag table and the "
+        "record-heterogeneity page disagree on short rows)",
         "join-field lists have no repeated names; -j is always given (help: -l/-r default to -j; without -j mlr asks for output names)",
         "CSV/TSV left files are rectangular (the format cannot express a missing field); heterogeneous left files use DKVP, JSON or "
         "CSV-lite schema change; cases a format cannot carry are skipped, not judged",
         "-s is only run on inputs the generator has sorted lexically by the join keys (documented precondition); key-less records stay in place",
-        "verb-level --prepipe/--prepipex are not exercised (questions-about-joins.md: they do not take effect in Miller 6)",
+        "verb-level --prepipe/--prepipex are not exercised (join usage says they apply to the left file, questions-about-joins.md says "
+        "that as of Miller 6 they do not take effect - the latter is what the binary does; nothing can be judged)",
         "output is read through --ojson --jvquoteall so that field order, duplicates and value texts are observable exactly",
     ]
 
